@@ -189,6 +189,33 @@ class _Inliner(object):
             return None
         binds, renames = bound
         body = copy.deepcopy(_strip_doc(fn.body))
+        # the helper's own locals become fresh locals of the caller: two
+        # expansions of one helper (or a caller local of the same name) must
+        # not share them
+        params_all = {a.arg for a in fn.args.args} | {
+            a.arg for a in fn.args.kwonlyargs}
+        declared = set()
+        stored = []
+        for st in body:
+            for n in ast.walk(st):
+                if isinstance(n, (ast.Global, ast.Nonlocal)):
+                    declared |= set(n.names)
+                elif isinstance(n, ast.Name) and isinstance(
+                        n.ctx, (ast.Store, ast.Del)) and \
+                        n.id not in stored:
+                    stored.append(n.id)
+                elif isinstance(n, ast.ExceptHandler) and n.name and \
+                        n.name not in stored:
+                    stored.append(n.name)
+        nested_defs = any(isinstance(n, (ast.FunctionDef, ast.Lambda,
+                                         ast.ClassDef, ast.AsyncFunctionDef))
+                          for st in body for n in ast.walk(st))
+        if not nested_defs:
+            for nm in stored:
+                if nm in params_all or nm in declared or nm in renames:
+                    continue
+                self.tmp += 1
+                renames[nm] = '%s__l%d' % (nm, self.tmp)
         if renames:
             holder = ast.Module(body=body, type_ignores=[])
             _RenameNames(renames).visit(holder)
